@@ -852,26 +852,7 @@ func runC03(cfg runCfg) error {
 		}
 		switch malformed {
 		case "attr-nonscalar":
-			if _, isList := v.([]interface{}); isList && c.Kind == "any" {
-				// AnyXml / AnyXmlIndent on a LIST: the error of a member is overwritten by the result of the
-				// next WriteString, so the call returns err == nil and ill-formed bytes (`<doc><a</doc>`), whereas
-				// the item model returns an error.  Outside the C03 domain; probed and counted here, reported,
-				// and kept out of the correspondence stream.
-				probe := deepCopy(v)
-				if g.injectBadAttr(probe) {
-					pc := c
-					out := c03Encode(pc, probe, r.chance(0.5))
-					switch {
-					case out.Panicked:
-						run.count("probe:anyxml-list-attr-nonscalar:panic")
-					case out.Err == nil:
-						run.count("probe:anyxml-list-attr-nonscalar:error-swallowed")
-					default:
-						run.count("probe:anyxml-list-attr-nonscalar:error-returned")
-					}
-				}
-				malformed = ""
-			} else if !g.injectBadAttr(v) {
+			if !g.injectBadAttr(v) {
 				malformed = ""
 			}
 		case "specials-noesc":
@@ -965,6 +946,29 @@ func c03One(run *Run, c c03Case, v interface{}) {
 		run.count("encoder-error")
 	}
 	if !c.InDomain {
+		if c.Malformed == "attr-nonscalar" {
+			// ---- oracle clause for the documented error: an attribute entry whose value is not a non-nil scalar must
+			// make the encoder return an error, never bytes (AnyXml / AnyXmlIndent on a list used to return truncated XML).
+			for _, e := range []struct {
+				indent bool
+				out    Outcome
+				inp    c03Case
+			}{{false, compact, c2}, {true, indented, c3}} {
+				if !c03ExpectErr(c, v, e.indent) {
+					run.count("attr-nonscalar:not-reached-as-attribute")
+					continue
+				}
+				run.sum.OracleEvals++
+				if e.out.Panicked || e.out.Err == nil {
+					key := "attr-nonscalar-no-error"
+					if c.Kind == "any" {
+						key = "anyxml-error-swallowed"
+					}
+					run.violation(Violation{Key: key, What: "an attribute entry with a non-scalar value must make the encoder return an error, never bytes",
+						Input: e.inp, Got: c03OutText(e.out), Want: "error (invalid attribute value)"})
+				}
+			}
+		}
 		return
 	}
 	// ---- oracle
@@ -982,6 +986,75 @@ func c03One(run *Run, c c03Case, v interface{}) {
 	}
 	encOracle(run, l1, o, false, c2, compact, ts2, terr2, want, k1)
 	encOracle(run, l2, o, false, c3, indented, ts3, terr3, want, k2)
+}
+
+// c03BadIn: does encoding x (marshalMapToXmlIndent) reach an attribute entry whose value is not a non-nil scalar?
+func c03BadIn(x interface{}) bool {
+	switch y := x.(type) {
+	case map[string]interface{}:
+		for k, val := range y {
+			if len(k) > 1 && k[0] == '-' {
+				switch val.(type) {
+				case nil, map[string]interface{}, []interface{}:
+					return true
+				}
+				continue
+			}
+			if k == "#text" {
+				continue
+			}
+			if c03BadIn(val) {
+				return true
+			}
+		}
+	case []interface{}:
+		for _, e := range y {
+			if c03BadIn(e) {
+				return true
+			}
+		}
+	}
+	return false
+}
+
+// c03ExpectErr mirrors the root selection of the four encoders: is the bad attribute entry written as an attribute?
+func c03ExpectErr(c c03Case, v interface{}, indent bool) bool {
+	if c.Kind == "map" {
+		m := v.(map[string]interface{})
+		if c.Root != nil || len(m) != 1 {
+			return c03BadIn(m)
+		}
+		for _, val := range m {
+			if l, isList := val.([]interface{}); isList {
+				if indent {
+					return c03BadIn(m)
+				}
+				for _, e := range l {
+					if _, isMap := e.(map[string]interface{}); !isMap {
+						return c03BadIn(m)
+					}
+				}
+			}
+			return c03BadIn(val)
+		}
+	}
+	if l, isList := v.([]interface{}); isList {
+		for _, e := range l {
+			if mm, isMap := e.(map[string]interface{}); isMap && len(mm) == 1 {
+				for _, val := range mm {
+					if c03BadIn(val) {
+						return true
+					}
+				}
+				continue
+			}
+			if c03BadIn(e) {
+				return true
+			}
+		}
+		return false
+	}
+	return c03BadIn(v)
 }
 
 func replayC03(raw []byte) error {
